@@ -51,6 +51,68 @@ def r01a(ctx, tom):
     ctx.extra["tom"] = tom.stats
 
 
+# ------------------------------------------------------------------ roles of the locals of a vault function (by definition, not by name)
+MAP_FUNCS = ("insert_map_once", "_erase_map_once")
+
+
+class Roles:
+    """Which locals of a vault function hold what, found from how they are defined:
+    maps     position maps: list[int] parameters, getattr(vault, <map name>), results of the map helpers, comprehensions/slices/sums over maps
+    caches   wrapper indexes: <x>._indexes[...]
+    idx      item index of the run found: find_odf_idx(<map>, position)
+    current  wrapper of the item found: <cache>[idx] or <vault>._get_element_idx2(scheme, idx)
+    after    clone of `current` that takes the rest of the run
+    vaults   the vault parameter (annotated CachedElement / named by position)"""
+
+    def __init__(self, f: FuncInfo):
+        self.maps: set[str] = set()
+        self.caches: set[str] = set()
+        self.idx: set[str] = set()
+        self.current: set[str] = set()
+        self.after: set[str] = set()
+        for a in f.all_params():
+            ann = ast.unparse(a.annotation) if a.annotation is not None else ""
+            if ann.replace(" ", "") in ("list[int]", "list"):
+                self.maps.add(a.arg)
+            if a.arg == "odf_idx":
+                self.idx.add(a.arg)
+        assigns = [n for n in walk_no_nested(f.node) if isinstance(n, ast.Assign) and len(n.targets) == 1 and isinstance(n.targets[0], ast.Name)]
+        for _ in range(4):
+            for n in assigns:
+                t, v = n.targets[0].id, n.value
+                if self._is_map(v):
+                    self.maps.add(t)
+                if isinstance(v, ast.Subscript) and isinstance(v.value, ast.Attribute) and v.value.attr == "_indexes":
+                    self.caches.add(t)
+                if isinstance(v, ast.Call) and call_name(v) == "find_odf_idx":
+                    self.idx.add(t)
+                if isinstance(v, ast.Name) and v.id in self.idx:
+                    pass  # `idx = odf_idx` is a moving copy, not the run found
+                if isinstance(v, ast.Subscript) and isinstance(v.value, ast.Name) and v.value.id in self.caches and isinstance(v.slice, ast.Name) and v.slice.id in self.idx:
+                    self.current.add(t)
+                if isinstance(v, ast.Call) and call_name(v) in ("_get_element_idx2", "_get_element_idx") and v.args and isinstance(v.args[-1], ast.Name) and v.args[-1].id in self.idx:
+                    self.current.add(t)
+                if isinstance(v, ast.Attribute) and v.attr == "clone" and isinstance(v.value, ast.Name) and v.value.id in self.current:
+                    self.after.add(t)
+
+    def _is_map(self, v: ast.expr) -> bool:
+        if isinstance(v, ast.Call):
+            cn = call_name(v)
+            if cn == "getattr" and len(v.args) >= 2 and isinstance(v.args[1], ast.Name) and "map" in v.args[1].id:
+                return True  # the second argument is the *parameter* naming the map attribute (part of the signature)
+            return cn in MAP_FUNCS
+        if isinstance(v, ast.Name):
+            return v.id in self.maps
+        if isinstance(v, ast.ListComp):
+            it = v.generators[0].iter
+            return self._is_map(it) or (isinstance(it, ast.Subscript) and self._is_map(it.value))
+        if isinstance(v, ast.Subscript) and isinstance(v.slice, ast.Slice):
+            return self._is_map(v.value)
+        if isinstance(v, ast.BinOp) and isinstance(v.op, ast.Add):
+            return self._is_map(v.left) or self._is_map(v.right)
+        return False
+
+
 # ------------------------------------------------------------------ R01b index kinds
 POS, CNT, OIDX, CIDX, NUM = "POS", "CNT", "OIDX", "CIDX", "NUM"
 
@@ -64,6 +126,7 @@ class Kinds:
         self.env: dict[str, str] = {"position": POS}
         self.problems: list[tuple[ast.AST, str]] = []
         self.typed = 0
+        self.roles = Roles(f)
         for a in f.all_params():
             if a.arg in ("odf_idx",):
                 self.env[a.arg] = OIDX
@@ -85,7 +148,7 @@ class Kinds:
             return CNT
         if isinstance(e, ast.Subscript):
             base = e.value
-            if isinstance(base, ast.Name) and base.id in ("vault_map", "emap", "orig_map", "cache_map", "new_map"):
+            if isinstance(base, ast.Name) and base.id in self.roles.maps:
                 k = self.kind(e.slice) if not isinstance(e.slice, ast.Slice) else None
                 if not isinstance(e.slice, ast.Slice):
                     self._need(e.slice, OIDX, "index into a position map", e)
@@ -99,7 +162,7 @@ class Kinds:
                 return OIDX
             if cn == "index":
                 return CIDX
-            if cn == "len" and e.args and isinstance(e.args[0], ast.Name) and "map" in e.args[0].id:
+            if cn == "len" and e.args and isinstance(e.args[0], ast.Name) and e.args[0].id in self.roles.maps:
                 return OIDX
             if cn in ("min", "max") and e.args:
                 ks = {self.kind(a) for a in e.args} - {None, NUM}
@@ -191,9 +254,9 @@ class Kinds:
                     a, b = self.kind(n.left), self.kind(n.comparators[0])
                     if a and b and NUM not in (a, b) and a != b and not isinstance(n.ops[0], (ast.In, ast.NotIn, ast.Is, ast.IsNot)):
                         self.problems.append((n, f"comparison of a {a} with a {b}"))
-                    if isinstance(n.ops[0], (ast.In, ast.NotIn)) and isinstance(n.comparators[0], ast.Name) and n.comparators[0].id == "cache":
+                    if isinstance(n.ops[0], (ast.In, ast.NotIn)) and isinstance(n.comparators[0], ast.Name) and n.comparators[0].id in self.roles.caches:
                         self._need(n.left, OIDX, "key of the wrapper index", n)
-                elif isinstance(n, ast.Subscript) and isinstance(n.value, ast.Name) and n.value.id == "cache" and not isinstance(n.slice, ast.Slice):
+                elif isinstance(n, ast.Subscript) and isinstance(n.value, ast.Name) and n.value.id in self.roles.caches and not isinstance(n.slice, ast.Slice):
                     self._need(n.slice, OIDX, "key of the wrapper index", n)
 
 
@@ -320,8 +383,9 @@ class AffEval:
     """Evaluate the integer locals of a vault function as affine forms over
     P (position), R (repeat count of the new item), S (first position of the run found), L (length of that run)."""
 
-    def __init__(self, f: FuncInfo):
+    def __init__(self, f: FuncInfo, roles: "Roles | None" = None):
         self.f = f
+        self.roles = roles or Roles(f)
         self.env: dict[str, Aff] = {"position": sym("P")}
 
     def ev(self, e: ast.expr) -> Aff | None:
@@ -340,13 +404,18 @@ class AffEval:
         if isinstance(e, ast.BoolOp) and isinstance(e.op, ast.Or) and isinstance(e.values[0], ast.Attribute) and e.values[0].attr == "repeated" \
                 and isinstance(e.values[0].value, ast.Name) and e.values[0].value.id == "item":
             return sym("R")
-        if isinstance(e, ast.Subscript) and isinstance(e.value, ast.Name) and e.value.id == "vault_map":
-            s = ast.unparse(e.slice)
-            if s == "odf_idx":
+        if isinstance(e, ast.Subscript) and isinstance(e.value, ast.Name) and e.value.id in self.roles.maps:
+            sl = e.slice
+            if isinstance(sl, ast.Name) and sl.id in self.roles.idx:
                 return sym("S") + sym("L") - Aff(c=1)  # last position of the run found
-            if s == "odf_idx - 1":
+            if isinstance(sl, ast.BinOp) and isinstance(sl.op, ast.Sub) and isinstance(sl.left, ast.Name) and sl.left.id in self.roles.idx \
+                    and isinstance(sl.right, ast.Constant) and sl.right.value == 1:
                 return sym("S") - Aff(c=1)  # last position of the previous run
         return None
+
+    def _idx_positive(self, t: ast.expr) -> bool:
+        return isinstance(t, ast.Compare) and len(t.ops) == 1 and isinstance(t.ops[0], ast.Gt) and isinstance(t.left, ast.Name) and t.left.id in self.roles.idx \
+            and isinstance(t.comparators[0], ast.Constant) and t.comparators[0].value == 0
 
     def assign_all(self, body) -> None:
         for s in body:
@@ -356,17 +425,17 @@ class AffEval:
                     self.env[s.targets[0].id] = v
             elif isinstance(s, ast.If):
                 # `if odf_idx > 0: before = map[odf_idx-1] else: before = -1`: the else arm is the S == 0 instance of the then arm
-                a = AffEval(self.f)
+                a = AffEval(self.f, self.roles)
                 a.env = dict(self.env)
                 a.assign_all(s.body)
-                b = AffEval(self.f)
+                b = AffEval(self.f, self.roles)
                 b.env = dict(self.env)
                 b.assign_all(s.orelse)
                 for k in set(a.env) | set(b.env):
                     va, vb = a.env.get(k), b.env.get(k)
                     if va is not None and vb is not None and va == vb:
                         self.env[k] = va
-                    elif va is not None and vb is not None and isinstance(s.test, ast.Compare) and ast.unparse(s.test) == "odf_idx > 0" \
+                    elif va is not None and vb is not None and self._idx_positive(s.test) \
                             and not vb.d and va.d == {"S": 1} and va.c == vb.c:
                         self.env[k] = va  # vb is va at S = 0
                     elif k in self.env and (va != self.env.get(k) or vb != self.env.get(k)):
@@ -379,57 +448,54 @@ def r01e(ctx):
     m = repo.module("element_cached")
     P, R, S, L = sym("P"), sym("R"), sym("S"), sym("L")
     one = Aff(c=1)
+    # what the split requires, by role: the repeat left on the item found, the repeat of its clone that follows the new item
     want = {
-        "set_item_in_vault": {"repeated_before": P - S, "repeated_after": S + L - P - R, "current_repeated": L, "current_pos": S},
-        "insert_item_in_vault": {"repeated_before": P - S, "repeated_after": S + L - P, "current_repeated": L, "current_pos": S},
-        "delete_item_in_vault": {"new_repeated": L - one, "current_repeated": L},
+        "set_item_in_vault": {"current": [P - S], "after": [S + L - P - R]},
+        "insert_item_in_vault": {"current": [P - S], "after": [S + L - P]},
+        "delete_item_in_vault": {"current": [L - one], "after": []},
     }
     for name in VAULTS:
         f = m.functions[name]
-        ae = AffEval(f)
+        roles = Roles(f)
+        if not roles.maps or not roles.idx or not roles.current:
+            raise AnalysisError(f"R01e: roles of the locals of {name} not found (map {sorted(roles.maps)}, index {sorted(roles.idx)}, item {sorted(roles.current)})")
+        ae = AffEval(f, roles)
         ae.assign_all(body_no_doc(f.node))
-        # (1) the derived quantities are the ones the split requires
-        for var, w in want[name].items():
-            got = ae.env.get(var)
-            ok = got is not None and got == w
-            ctx.instance("R01e", f"{f.file}:{f.ident}", f"{var} = {got!r} (required {w!r})", ok=ok, nontrivial=True, line=f.node.lineno)
-            if not ok:
-                ctx.report("R01e", f, f.node, f"{var} = {got!r}, required {w!r}",
-                           f"in {name}, {var} evaluates to {got!r} over (P position, R new repeat, S run start, L run length) but splitting the "
-                           f"run [S, S+L) at P requires {w!r}: repetitions are lost or invented")
-        # (2) what is written: every _set_repeated(k) and insert_map_once(_, _, k) argument is one of the derived quantities
-        allowed = {v for v in want[name].values()} | {R}
+        written: dict[str, list] = {"current": [], "after": []}
+        # (1)+(2) what is written: every _set_repeated(k) on the item found / on its clone is the part of the run the split leaves there
+        allowed = {x for v in want[name].values() for x in v} | {R}
         for n in walk_no_nested(f.node):
-            if isinstance(n, ast.Call) and call_name(n) == "_set_repeated" and n.args and isinstance(n.func, ast.Attribute) \
-                    and ast.unparse(n.func.value) in ("current_item", "after_item"):
+            if isinstance(n, ast.Call) and call_name(n) == "_set_repeated" and n.args and isinstance(n.func, ast.Attribute) and isinstance(n.func.value, ast.Name):
+                who = "current" if n.func.value.id in roles.current else ("after" if n.func.value.id in roles.after else None)
+                if who is None:
+                    continue
                 got = ae.ev(n.args[0])
-                who = ast.unparse(n.func.value)
-                need = {"current_item": [want[name].get("repeated_before"), want[name].get("new_repeated")],
-                        "after_item": [want[name].get("repeated_after")]}[who]
-                ok = got is not None and got in [x for x in need if x is not None]
-                ctx.instance("R01e", f"{f.file}:{f.ident}", f"{who}._set_repeated({norm(n.args[0], 30)}) = {got!r}", ok=ok, nontrivial=True, line=n.lineno)
+                need = want[name][who]
+                ok = got is not None and got in need
+                written[who].append(got)
+                ctx.instance("R01e", f"{f.file}:{f.ident}", f"repeat left on the {'item found' if who == 'current' else 'clone after the new item'}: "
+                             f"{norm(n.args[0], 30)} = {got!r} (required {need[0]!r})" if need else f"{norm(n, 40)}", ok=ok, nontrivial=True, line=n.lineno)
                 if not ok:
-                    ctx.report("R01e", f, n, n, f"{who} receives repeat count {got!r}; the split requires {[repr(x) for x in need if x is not None]}")
+                    ctx.report("R01e", f, n, n, f"in {name} the {'item found' if who == 'current' else 'clone that follows the new item'} receives repeat count {got!r} over "
+                               f"(P position, R new repeat, S run start, L run length); splitting the run [S, S+L) at P requires {[repr(x) for x in need]}: "
+                               f"repetitions are lost or invented")
             if isinstance(n, ast.Call) and call_name(n) == "insert_map_once" and len(n.args) == 3:
                 got = ae.ev(n.args[2])
                 ok = got is not None and got in allowed
                 ctx.instance("R01e", f"{f.file}:{f.ident}", f"map run length {norm(n.args[2], 30)} = {got!r}", ok=ok, nontrivial=True, line=n.lineno)
                 if not ok:
                     ctx.report("R01e", f, n, n, f"the position map receives a run of length {got!r}, which is none of the parts of the split")
+        for who, need in want[name].items():
+            if need and not written[who]:
+                ctx.instance("R01e", f"{f.file}:{f.ident}", f"no repeat is written on the {'item found' if who == 'current' else 'clone after the new item'}", ok=False, line=f.node.lineno)
+                ctx.report("R01e", f, f.node, f"{name}: no _set_repeated on the {who} item", f"{name} never writes the remaining repeat count of the {who} part of the split run")
         # (3) conservation
-        env = ae.env
-        if name == "set_item_in_vault":
-            tot = (env.get("repeated_before") or Aff()) + R + (env.get("repeated_after") or Aff())
-            ok = "repeated_before" in env and "repeated_after" in env and tot == L
-            ctx.instance("R01e", f"{f.file}:{f.ident}", f"before + new + after = {tot!r} = L", ok=ok, nontrivial=True)
+        if name in ("set_item_in_vault", "insert_item_in_vault") and written["current"] and written["after"] and written["current"][0] is not None and written["after"][0] is not None:
+            tot = written["current"][0] + written["after"][0] + (R if name == "set_item_in_vault" else Aff())
+            ok = tot == L
+            ctx.instance("R01e", f"{f.file}:{f.ident}", f"before {'+ new ' if name == 'set_item_in_vault' else ''}+ after = {tot!r} = L", ok=ok, nontrivial=True)
             if not ok:
-                ctx.report("R01e", f, f.node, f"before + R + after = {tot!r} ≠ L", "set: the parts of the split run do not add up to the run")
-        if name == "insert_item_in_vault":
-            tot = (env.get("repeated_before") or Aff()) + (env.get("repeated_after") or Aff())
-            ok = "repeated_before" in env and "repeated_after" in env and tot == L
-            ctx.instance("R01e", f"{f.file}:{f.ident}", f"before + after = {tot!r} = L", ok=ok, nontrivial=True)
-            if not ok:
-                ctx.report("R01e", f, f.node, f"before + after = {tot!r} ≠ L", "insert: the two halves of the split run do not add up to the run")
+                ctx.report("R01e", f, f.node, f"parts add up to {tot!r} ≠ L", f"{name}: the parts of the split run do not add up to the run")
     # delete: map shift is exactly -1 on every later run
     f = m.functions["delete_item_in_vault"]
     shifts = [n for n in walk_no_nested(f.node) if isinstance(n, ast.ListComp)]
@@ -499,36 +565,51 @@ def r01fgh(ctx):
         if not ok:
             ctx.report("R01f", f, f.node, "insert_map_once(…, _repeated)", f"{q} does not extend the map by the declared run length")
     # R01g
+    from ..shape import find, has
     g = repo.func("element_cached:find_odf_idx")
+    gp = [a.arg for a in g.all_params()]
     calls = [c for c in walk_no_nested(g.node) if isinstance(c, ast.Call) and call_name(c).startswith("bisect")]
-    ok = len(calls) == 1 and call_name(calls[0]) == "bisect_left" and [ast.unparse(a) for a in calls[0].args] == ["cache_map", "position"]
-    ctx.instance("R01g", f"{g.file}:{g.ident}", "odf_idx = bisect_left(cache_map, position)", ok=ok, nontrivial=True)
+    ok = len(calls) == 1 and call_name(calls[0]) == "bisect_left" and [ast.unparse(a) for a in calls[0].args] == gp[:2]
+    ctx.instance("R01g", f"{g.file}:{g.ident}", f"index = bisect_left({', '.join(gp[:2])})", ok=ok, nontrivial=True)
     if not ok:
         ctx.report("R01g", g, g.node, "find_odf_idx bisect", "the map stores the last position of each run: the run holding `position` is the first entry >= position "
                    "(bisect_left); any other search addresses the neighbouring run")
-    cmp_ = [n for n in walk_no_nested(g.node) if isinstance(n, ast.Compare)]
-    ok = bool(cmp_) and ast.unparse(cmp_[0]).replace(" ", "") == "odf_idx<len(cache_map)" and any(
+    ok = bool(gp) and bool(find(g.node, f"I_ = bisect_left({gp[0]}, {gp[1]})")) and (
+        has(g.node, f"if I_ < len({gp[0]}):\n    return I_") or has(g.node, f"if I_ >= len({gp[0]}):\n    return None")) and any(
         isinstance(r, ast.Return) and isinstance(r.value, ast.Constant) and r.value.value is None for r in walk_no_nested(g.node))
     ctx.instance("R01g", f"{g.file}:{g.ident}", "None when the position lies beyond the last run", ok=ok, nontrivial=True)
     if not ok:
         ctx.report("R01g", g, g.node, "find_odf_idx bound", "find_odf_idx does not return None exactly when the position is beyond the last run")
     h = repo.func("element_cached:make_cache_map")
-    okm = any(isinstance(c, ast.Call) and call_name(c) == "insert_map_once" and [ast.unparse(a) for a in c.args][1:] == ["odf_idx", "repeated"] for c in walk_no_nested(h.node))
-    ctx.instance("R01g", f"{h.file}:{h.ident}", "map built by insert_map_once(map, odf_idx, repeated) per item", ok=okm)
+    okm = has(h.node, "for I_, R_ in S_:\n    M_ = insert_map_once(M_, I_, R_)")
+    ctx.instance("R01g", f"{h.file}:{h.ident}", "map built by insert_map_once(map, item index, repeat) per item", ok=okm)
     if not okm:
         ctx.report("R01g", h, h.node, "make_cache_map", "the initial map is not built from (item index, repeat) pairs")
-    # R01h
+    # R01h — the position counter is the local handed to the per-item setter; it advances by the width of what was set
     f = repo.func("Row.set_cells")
-    steps = [a for a in walk_no_nested(f.node) if isinstance(a, ast.AugAssign) and isinstance(a.target, ast.Name) and a.target.id == "x"]
-    texts = sorted(ast.unparse(a.value) for a in steps)
-    ok = texts == ["1", "cell.repeated or 1"]
-    ctx.instance("R01h", f"{f.file}:{f.ident}", f"x advances by {texts}", ok=ok, nontrivial=True)
+    loops = [n for n in walk_no_nested(f.node) if isinstance(n, ast.For) and any(isinstance(c, ast.Call) and call_name(c) == "set_cell" for c in ast.walk(n))]
+    ok, texts = False, []
+    if loops and isinstance(loops[0].target, ast.Name):
+        lp, cv = loops[0], loops[0].target.id
+        sc = [c for c in ast.walk(lp) if isinstance(c, ast.Call) and call_name(c) == "set_cell" and c.args and isinstance(c.args[0], ast.Name)]
+        if sc:
+            xv = sc[0].args[0].id
+            steps = [a_ for a_ in ast.walk(lp) if isinstance(a_, ast.AugAssign) and isinstance(a_.target, ast.Name) and a_.target.id == xv and isinstance(a_.op, ast.Add)]
+            texts = sorted(ast.unparse(a_.value).replace(cv, "<cell>") for a_ in steps)
+            ok = texts == ["1", "<cell>.repeated or 1"]
+    ctx.instance("R01h", f"{f.file}:{f.ident}", f"the position advances by {texts}", ok=ok, nontrivial=True)
     if not ok:
         ctx.report("R01h", f, f.node, f"Row.set_cells step {texts}", "after setting a cell the position must advance by that cell's repeat count (1 for None)")
     f = repo.func("Row.set_values")
-    steps = [ast.unparse(a.value) for a in walk_no_nested(f.node) if isinstance(a, ast.AugAssign) and isinstance(a.target, ast.Name) and a.target.id == "x"]
-    ok = steps == ["1"]
-    ctx.instance("R01h", f"{f.file}:{f.ident}", f"x advances by {steps}", ok=ok)
+    loops = [n for n in walk_no_nested(f.node) if isinstance(n, ast.For) and any(isinstance(c, ast.Call) and call_name(c) == "set_cell" for c in ast.walk(n))]
+    ok, steps = False, []
+    if loops:
+        sc = [c for c in ast.walk(loops[0]) if isinstance(c, ast.Call) and call_name(c) == "set_cell" and c.args and isinstance(c.args[0], ast.Name)]
+        if sc:
+            xv = sc[0].args[0].id
+            steps = [ast.unparse(a_.value) for a_ in ast.walk(loops[0]) if isinstance(a_, ast.AugAssign) and isinstance(a_.target, ast.Name) and a_.target.id == xv and isinstance(a_.op, ast.Add)]
+            ok = steps == ["1"]
+    ctx.instance("R01h", f"{f.file}:{f.ident}", f"the position advances by {steps}", ok=ok)
     if not ok:
         ctx.report("R01h", f, f.node, f"Row.set_values step {steps}", "values are single cells: the position must advance by one")
     for q in ("Table.set_cells", "Table.set_values"):
@@ -538,10 +619,14 @@ def r01fgh(ctx):
         if loop:
             body = loop[0].body
             first = body[0] if body else None
-            ok = isinstance(first, ast.AugAssign) and ast.unparse(first.target) == "y" and ast.unparse(first.value) == "1" and isinstance(first.op, ast.Add)
-            pre = [a for a in walk_no_nested(f.node) if isinstance(a, ast.AugAssign) and ast.unparse(a.target) == "y" and isinstance(a.op, ast.Sub) and a.lineno < loop[0].lineno]
-            ok = ok and len(pre) == 1 and ast.unparse(pre[0].value) == "1"
-        ctx.instance("R01h", f"{f.file}:{f.ident}", "y -= 1 before the loop, y += 1 first in every iteration (also for skipped rows)", ok=ok, nontrivial=True)
+            gr = [c for c in ast.walk(loop[0]) if isinstance(c, ast.Call) and call_name(c) in ("get_row", "set_row") and c.args and isinstance(c.args[0], ast.Name)]
+            yv = gr[0].args[0].id if gr else None
+            ok = yv is not None and isinstance(first, ast.AugAssign) and isinstance(first.target, ast.Name) and first.target.id == yv \
+                and repo.fold(first.value, f.module) == 1 and isinstance(first.op, ast.Add)
+            pre = [a_ for a_ in walk_no_nested(f.node) if isinstance(a_, ast.AugAssign) and isinstance(a_.target, ast.Name) and a_.target.id == yv and isinstance(a_.op, ast.Sub)
+                   and a_.lineno < loop[0].lineno]
+            ok = ok and len(pre) == 1 and repo.fold(pre[0].value, f.module) == 1
+        ctx.instance("R01h", f"{f.file}:{f.ident}", "row position: -= 1 before the loop, += 1 first in every iteration (also for skipped rows)", ok=ok, nontrivial=True)
         if not ok:
             ctx.report("R01h", f, f.node, f"{q} row stepping", "the row position must advance by one for every input row, including empty ones that are skipped")
 
@@ -565,7 +650,7 @@ def run(ctx):
     r01fgh(ctx)
 
 
-from ..selftest import Seed, unparse_seed  # noqa: E402
+from ..selftest import Seed, rename_seed, unparse_seed  # noqa: E402
 
 _T = "src/odfdo/table.py"
 _R = "src/odfdo/row.py"
@@ -627,7 +712,7 @@ SEEDS = [
     Seed("Table.set_values does not advance on empty rows", "fault", _T,
          "        for row_values in values:\n            y += 1\n            if not row_values:\n                continue\n            row = self.get_row(y, clone=True)",
          "        for row_values in values:\n            if not row_values:\n                continue\n            y += 1\n            row = self.get_row(y, clone=True)", "R01h"),
-    unparse_seed(_T), unparse_seed(_R), unparse_seed(_EC),
+    unparse_seed(_T), unparse_seed(_R), unparse_seed(_EC), rename_seed(_T), rename_seed(_R), rename_seed(_EC),
     Seed("un-repeat written with inverted test", "neutral", _T,
          "            repeated = row.repeated or 1\n            if repeated >= 2:\n                row.repeated = None\n            row.set_cells(row_cells, start=x, clone=clone)",
          "            repeated = row.repeated or 1\n            if repeated < 2:\n                pass\n            else:\n                row.repeated = None\n            row.set_cells(row_cells, start=x, clone=clone)"),
